@@ -43,7 +43,10 @@ def main():
                 results[sid] = {"property": prop, "status": "patch-does-not-apply", "detail": r.stderr[-300:]}
                 continue
             env = dict(os.environ, PYTHONPATH=wt, MPLBACKEND="Agg")
-            demo = sh(["/venv/bin/python", os.path.join(d, "demo.py")], cwd=wt, env=env)
+            os.makedirs(os.path.join(wt, "_seeded"), exist_ok=True)
+            import shutil
+            shutil.copy(os.path.join(d, "demo.py"), os.path.join(wt, "_seeded", "demo.py"))
+            demo = sh(["/venv/bin/python", os.path.join(wt, "_seeded", "demo.py")], cwd=wt, env=env)
             env2 = dict(os.environ, GLUE_REPO=wt)
             c = sh([os.path.join(ROOT, "check"), prop, tier], cwd=ROOT, env=env2)
             viol = [l for l in c.stdout.split("\n") if l.startswith("VIOLATION")]
